@@ -370,14 +370,13 @@ def main(argv: Optional[List[str]] = None) -> int:
                 samples.append(s)
 
     # de-duplicate violations by case
-    seen = set()
-    uniq = []
+    keyf = getattr(mod, "dedup_key", None)
+    best: Dict[str, Dict[str, Any]] = {}
     for v in viol:
-        h = sha(v["case"])
-        if h not in seen:
-            seen.add(h)
-            uniq.append(v)
-    viol = uniq
+        h = str(keyf(v["case"])) if keyf else sha(v["case"])
+        if h not in best or len(json.dumps(v["case"], default=repr)) < len(json.dumps(best[h]["case"], default=repr)):
+            best[h] = v
+    viol = list(best.values())
 
     # -- floors
     floor_fail = []
